@@ -122,7 +122,12 @@ CHECKS = {
         "pre ++ vic ++ post whose definition(s) vic are damaged into vic' (first three tokens kept), IF the loop over the damaged file, started "
         "at the victim, comes to stand exactly at the victim's end, THEN the damaged file is parsed into the very same items in front, whatever the "
         "victim has become, and behind it the items post parses into on its own, moved by the change of length (Props/C03.lean; parseSeg_append, "
-        "parseSeg_shift, parseSeg_prefix). The item-wise view of the loop (every item parsed from a fresh state) is compared with the "
+        "parseSeg_shift, parseSeg_prefix). runMain_is_items (history independence of the interpreter, Lemmas/ItemsHist.lean + ItemsMain.lean: for every "
+        "program whose main is `open root; while !eof { statement }; close root` - glas_mainShape decides that on the regenerated parser - every normally "
+        "ending run parses exactly the items the item-wise loop finds from fresh states, its node events and errors are theirs in order; the events, "
+        "errors, identities and call depth accumulated before an item cannot influence it, the look-ahead counter only towards the `parser is stuck` guard) "
+        "and C03_module (the conditional theorem for the run itself: events and errors of the damaged file's run = root, the undamaged file's items in front, "
+        "the victim's, post's own items, root). The item-wise view of the loop is additionally compared with the "
         "implementation's top-level nodes on ~600 damaged and undamaged files per run. Hence damage confined to one definition cannot "
         "change the others PROVIDED the damaged definition's parse stops at its own end; that containment is NOT proved (it is false on the "
         "current tree in 7 recovery sites, recorded as known findings) and is evaluated on the implementation: files of 2-4 reference-grammar "
